@@ -137,6 +137,16 @@ def run_case(spec0):
                     # an already cached iteration strictly inside the new request
                     req = [all_its[int(rng.integers(0, j))], pv,
                            all_its[int(rng.integers(j + 1, len(all_its)))]]
+            # iterations cached at ANOTHER level, and iterations whose number is the
+            # leading part of a cached one (128 after 1280): both share file names /
+            # datasets with what is there already
+            other = sorted({i for l2, v in prev_its.items() if l2 != rl for i in v if i in all_its})
+            if other and rng.random() < 0.5:
+                req = sorted(set(req) | set(other[:2]))
+            allprev = [i for v in prev_its.values() for i in v]
+            pref = [i for i in all_its if any(str(q).startswith(str(i)) and q != i for q in allprev)]
+            if pref and rng.random() < 0.5:
+                req = sorted(set(req) | {pref[int(rng.integers(len(pref)))]})
             rng.shuffle(req)
             want, tensor = biased_request(rng, spec, prev)
             explicit = None
